@@ -76,6 +76,9 @@ def session_task(W, payload, r, prog, out):
     solver0 = r.choice(["euler", "rk4"])
     other_solver = "rk4" if solver0 == "euler" else "euler"
     n_runners = 0
+    dyn_menu = []
+    saved_names = ["sess_tot", "sess_fn"] + [op["name"] for op in prog["build"] if op["op"] == "request" and op.get("save", True)]
+    saved_names = sorted(set(saved_names))
     for step in range(r.randint(2, 7)):
         kind = r.choice(["run", "run", "run_omit", "defaults", "rebuild", "get_runner", "get_runner", "runner_run"])
         vals = {k: q(Fr(v) * r.choice([Fr(1), Fr(1, 2), Fr(3, 2)])) for k, v in params.items()}
@@ -85,9 +88,18 @@ def session_task(W, payload, r, prog, out):
             continue
         if kind == "get_runner":
             # an explicit runner (other solver, some parameters frozen at other values) must not disturb later model.run calls
-            dyn = None if r.random() < 0.3 else [k for k in keys if r.random() < 0.5]
+            # one run-time-supplied set per history is REUSED by later explicit runners (same set, other frozen values)
+            if dyn_menu and r.random() < 0.6:
+                dyn = list(dyn_menu[0])
+            else:
+                dyn = None if r.random() < 0.3 else [k for k in keys if r.random() < 0.5]
+                if dyn is not None: dyn_menu.append(list(dyn))
             sv = r.choice([solver0, other_solver, other_solver])
-            hist.append(("get_runner", dict(vals), dyn, sv))
+            # every third explicit runner computes only SOME derived outputs
+            wl = None
+            if saved_names and r.random() < 0.35:
+                wl = sorted(r.sample(saved_names, r.randint(1, len(saved_names))))
+            hist.append(("get_runner", dict(vals), dyn, sv, wl))
             lop = {"k": "get_runner", "base": [[k, v] for k, v in vals.items()], "solver": sv}
             if dyn is not None: lop["dyn"] = list(dyn)
             lops.append(lop); n_runners += 1
@@ -108,18 +120,21 @@ def session_task(W, payload, r, prog, out):
         out["diffs"].append({"stage": "S9", "what": "session model error", "model": pred, "prescribed": False}); return out
     I = S.I
     h = prog_hash(ops)
-    runners = []
+    runners = []; runner_wl = []
     for (hop, lop, outc) in zip(hist, lops, pred["outcomes"]):
+        cur_wl = None
         if hop[0] == "defaults":
             I.model.set_default_parameters({k: float(Fr(v)) for k, v in hop[1].items()})
             continue
         if hop[0] == "get_runner":
             try:
+                kwx = {} if hop[4] is None else {"derived_outputs": list(hop[4])}
                 runners.append(I.model.get_runner({k: float(Fr(v)) for k, v in hop[1].items()}, dyn_params=(None if hop[2] is None else list(hop[2])),
-                                                  solver=hop[3], jit=False))
+                                                  solver=hop[3], jit=False, **kwx))
+                runner_wl.append(hop[4])
                 built = True
             except BaseException:
-                runners.append(None); built = False
+                runners.append(None); runner_wl.append(None); built = False
             out["evals"] += 1
             if built != ("built" in outc):
                 out["diffs"].append({"stage": "S9", "what": "session: get_runner raise / no-raise", "impl": built, "model": outc, "history": lops, "prescribed": False,
@@ -130,6 +145,7 @@ def session_task(W, payload, r, prog, out):
             rn = runners[hop[1]] if hop[1] < len(runners) else None
             if rn is None:
                 break
+            cur_wl = runner_wl[hop[1]]
             try:
                 rn.run({k: float(Fr(v)) for k, v in hop[2].items()})
                 rr = {"ok": True, "outputs": np.asarray(I.model.outputs).tolist(), "derived": [[k, np.asarray(v).tolist()] for k, v in I.model.derived_outputs.items()]}
@@ -155,6 +171,15 @@ def session_task(W, payload, r, prog, out):
         fr = F.apply({"op": "run", "params": [[k, v] for k, v in merged.items()], "solver": eff["solver"], "rebuild": False})
         if not fr["ok"]:
             out["diffs"].append({"stage": "S9", "what": "session: fresh run with the predicted assignment fails", "model": outc, "history": lops, "prescribed": False}); break
+        if cur_wl is not None:
+            # a runner that computes only some derived outputs publishes exactly those (nothing left over from earlier runs), with the fresh values
+            dr = dict((k, v) for k, v in rr["derived"]); dfr = dict((k, v) for k, v in fr["derived"])
+            if sorted(dr) != sorted(cur_wl) or not bits_equal(rr["outputs"], fr["outputs"]) or not all(bits_equal(dr[k], dfr[k]) for k in cur_wl if k in dfr):
+                out["diffs"].append({"stage": "S9", "what": "session: a runner restricted to some derived outputs publishes other names or values than a fresh run", "published": sorted(dr),
+                                     "requested": list(cur_wl), "history": lops, "prescribed": False, "task": {"module": "c11", "fn": "task", "payload": payload}, "program": ops})
+                break
+            out["cases"].append(h + ":session:" + str(len(out["cases"])))
+            continue
         if not res_equal(rr, fr):
             out["diffs"].append({"stage": "S9", "what": "session: run differs from a fresh run with the predicted effective assignment", "model": outc, "history": lops,
                                  "prescribed": False, "task": {"module": "c11", "fn": "task", "payload": payload}, "program": ops})
